@@ -14,6 +14,9 @@ point and with view enter / detach / exit.  After EVERY response the harness com
 
 The logical clock never moves, so no session expires: a stale token after TTL expiry (which the server cannot
 announce) is outside this property.
+
+Call context ``replay``: a detached live token presented by a plain client WITHOUT the opt-in header (scripts grid and
+histories): the session is resumed, nothing may be opened for that request.
 """
 
 from __future__ import annotations
